@@ -177,6 +177,10 @@ def curated():
     # --- four simulators: two routes between one pair, one of which leaves the group
     a(mk('tworoutes', [['A', 'D', 'C'], 'B'], {'A': 'ev', 'B': 'ev', 'C': 'ev', 'D': 'ev'},
          [('A', 'C'), ('A', 'B'), ('B', 'D'), ('D', 'C', {'weak': True})], init={'A': 0}, tags=['groups', 'delay', 'four']))
+    # a weak loop A <-> B in a group whose member D is fed by A directly and through C outside the group (the route through C
+    # forgets the sub-step: D's first sub-step needs A to have left the time step)
+    a(mk('lazyroutes', [['A', 'B', 'D'], 'C'], {'A': 'ev', 'B': 'ev', 'C': 'ev', 'D': 'ev'},
+         [('A', 'B'), ('B', 'A', {'weak': True}), ('A', 'D'), ('A', 'C'), ('C', 'D', {'i': 't2'})], init={'A': 0}, tags=['groups', 'delay', 'four', 'weak']))
     a(mk('tworoutes_flat', ['A', 'D', 'C', 'B'], {'A': 'ev', 'B': 'ev', 'C': 'ev', 'D': 'ev'},
          [('A', 'C'), ('A', 'B'), ('B', 'D'), ('D', 'C')], init={'A': 0}, tags=['delay', 'four']))
     return T
